@@ -12,7 +12,9 @@
    - theorems over ALL table entries of the regenerated tables: frozen copy, SPtrans = P after S, skb = PC2 pieces,
      rotation schedule, cov_2char = alphabet, con_salt = its inverse;
    - theorems for ALL inputs about the table-free networks: the head of desSetKey is PC1, the tail of body is FP;
-   - C02_equals_crypt3_partial: whole-function equality with crypt(3) is NOT proved (see the comment there);
+   - theorems for ALL key blocks / halves / round keys / salts: the 16 round keys of desSetKey are the FIPS round keys,
+     one dEncrypt step is one Feistel round with crypt(3)'s salted E;
+   - C02_equals_crypt3: whole-function equality with textbook crypt(3) for ALL passwords and ALL alphabet salts;
    - C02_reject_partial: "rejected for any differing password" CANNOT be proved (it would say that DES has no
      colliding keys here); it is exercised by differential testing only. *)
 From Verif Require Import Base.Common Gen.CryptTab Model.C02 Model.C02_DesSpec Proofs.C02.
@@ -119,14 +121,28 @@ Theorem C02_body_tail_is_FP : forall l r, 0 <= l < 2 ^ 32 -> 0 <= r < 2 ^ 32 -> 
 Proof. exact body_tail_is_FP. Qed.
 Print Assumptions C02_body_tail_is_FP.
 
-(* PARTIAL. Full claim: forall pw and alphabet salts, fcrypt pw salt = Ok (h ++ [0]) with crypt pw salt = Some h.
-   Proved conjuncts: same key block and same salt bits go in; SPtrans, skb, shifts2, cov_2char are the FIPS tables;
-   the head of desSetKey is PC1 and the tail of body is FP; the equality holds on VECTORS (kernel evaluation).
-   NOT proved: that the 16 rotate-and-lookup rounds of desSetKey lay the FIPS round keys out as dEncrypt expects, that
-   the shift-and-mask E-box with E0/E1 is the salted E, that the 25 x 16 dEncrypt rounds are Feistel rounds in the
-   rotated representation, and that the output loop is the base-64 grouping — validated on every case of every run by
-   the 4-way correspondence Go <-> model <-> DesSpec <-> libcrypt (checks/C02.py). *)
-Theorem C02_equals_crypt3_partial :
+(* desSetKey, whole: for every 8-byte key block, schedule words 2r and 2r+1 are the FIPS round key K_(r+1) of that
+   key (textbook PC1, rotations, PC2 of Model/C02_DesSpec.v), laid out by [place]: word 2r carries the six bits for
+   S-boxes 1, 3, 5, 7 at bits 0.., 8.., 16.., 24..; word 2r+1 those for S-boxes 2, 4, 6, 8 at the same offsets rotated
+   left by 4; all other bits zero. Proved by symbolic GF(2) evaluation of all of desSetKey (Proofs/C02_KeySched.v). *)
+Theorem C02_round_keys : forall key r h, length key = 8%nat -> bytes_ok key = true -> (r < 16)%nat -> (h < 2)%nat ->
+  nth (2 * r + h) (set_key key) 0 = place h (nth r (key_schedule (flat_map byte_bits key)) []).
+Proof. exact round_keys. Qed.
+Print Assumptions C02_round_keys.
+
+(* dEncrypt, one step: for ALL 32-bit halves L, R (FIPS bit q at word bit q mod 32: [hw]), ALL 48-bit round keys K in
+   placed form and ALL 12 salt bits (bits 0..5 in E0, bits 6..11 in E1 >> 4), the Go step returns L xor f(R, K) where f
+   is the textbook cipher function with crypt(3)'s salted E (salt bit i swaps E bits i and i+24), S1..S8 and P. *)
+Theorem C02_round_is_feistel : forall sb Lb Rb K,
+  length sb = 12%nat -> length Lb = 32%nat -> length Rb = 32%nat -> length K = 48%nat ->
+  d_encrypt (hw Lb) (hw Rb) (E0_of sb) (E1_of sb) (place 0 K) (place 1 K) = hw (xorl Lb (feistel sb Rb K)).
+Proof. exact d_encrypt_is_feistel. Qed.
+Print Assumptions C02_round_is_feistel.
+
+(* The building blocks in one statement (all used by C02_equals_crypt3): same key block and same salt bits go in;
+   SPtrans, skb, shifts2, cov_2char are the FIPS tables; the head of desSetKey is PC1 and the tail of body is FP; the
+   equality on VECTORS by kernel evaluation (the general theorem is not vacuous). *)
+Theorem C02_equals_crypt3_blocks :
   (forall pw s0 s1 i0 i1, index_of s0 ALPHABET O = Some i0 -> index_of s1 ALPHABET O = Some i1 ->
      keyblock pw = crypt_key pw /\
      nthZ con_salt (norm_byte s0) = Some (Z.of_nat i0) /\ nthZ con_salt (norm_byte s1) = Some (Z.of_nat i1) /\
@@ -142,8 +158,42 @@ Theorem C02_equals_crypt3_partial :
      Z.testbit (fst (final_perm l r)) j = block_bit l r (Z.of_nat (nth (Z.to_nat (out_n 0 j)) FP O)) /\
      Z.testbit (snd (final_perm l r)) j = block_bit l r (Z.of_nat (nth (Z.to_nat (out_n 1 j)) FP O))) /\
   forallb agree VECTORS = true.
-Proof. exact equals_crypt3_partial. Qed.
-Print Assumptions C02_equals_crypt3_partial.
+Proof. exact equals_crypt3_blocks. Qed.
+Print Assumptions C02_equals_crypt3_blocks.
+
+(* body, whole: for every 8-byte key block and every 12 salt bits, the 25 x 16 dEncrypt steps followed by the final
+   PermOp network return, as two little-endian words, the 64 bits of 25 chained textbook DES encryptions (salted E)
+   of the zero block: bit j of word w is bit out_n w j (0-based, FIPS order) of that block. *)
+Theorem C02_body_is_25_des : forall key sb, length key = 8%nat -> bytes_ok key = true -> length sb = 12%nat ->
+  let blk := Nat.iter 25 (des_block sb (key_schedule (flat_map byte_bits key))) (repeat false 64) in
+  body (set_key key) (E0_of sb) (E1_of sb) = (ofbits (out_bits 0 blk), ofbits (out_bits 1 blk)) /\ length blk = 64%nat.
+Proof. exact body_is_crypt_core. Qed.
+Print Assumptions C02_body_is_25_des.
+
+(* The output loop of cFcrypt on those two words is the textbook base-64 grouping: eleven 6-bit groups, most
+   significant bit first, of the 64 bits plus two zero bits, through the alphabet ./0-9A-Za-z. *)
+Theorem C02_output_is_base64 : forall blk, length blk = 64%nat ->
+  encode (ofbits (out_bits 0 blk)) (ofbits (out_bits 1 blk)) =
+  Ok (map (fun v => nth v ALPHABET 0) (groups6 11 (blk ++ [false; false]))).
+Proof. exact encode_is_groups6. Qed.
+Print Assumptions C02_output_is_base64.
+
+(* THE WHOLE FUNCTION. For ALL passwords (any bytes, any length) and ALL salts on which traditional crypt(3) is defined
+   (two characters of ./0-9A-Za-z, anything after them ignored), the model of crypt.Fcrypt returns exactly the
+   13 characters of textbook crypt(3) (Model/C02_DesSpec.v: FIPS 46-3 tables IP, E, S1..S8, P, PC1, PC2, rotation
+   schedule on bit lists; 25 encryptions of the zero block under the salted E; base-64) followed by the NUL byte.
+   Nothing is left validated-only in this chain: key block, salt, 16 round keys, each round, 16 x 25 rounds, FP, output. *)
+Theorem C02_equals_crypt3 : forall pw salt h, crypt pw salt = Some h -> fcrypt pw salt = Ok (h ++ [0]).
+Proof. exact equals_crypt3. Qed.
+Print Assumptions C02_equals_crypt3.
+
+(* crypt(3) is defined exactly on the alphabet salts, so the theorem above covers every such salt (and only those:
+   outside the alphabet the specification says nothing and fcrypt still follows con_salt, see C02_shape). *)
+Theorem C02_equals_crypt3_on_alphabet : forall pw s0 s1 rest,
+  index_of s0 ALPHABET O <> None -> index_of s1 ALPHABET O <> None ->
+  exists h, crypt pw (s0 :: s1 :: rest) = Some h /\ fcrypt pw (s0 :: s1 :: rest) = Ok (h ++ [0]).
+Proof. exact equals_crypt3_alphabet. Qed.
+Print Assumptions C02_equals_crypt3_on_alphabet.
 
 (* PARTIAL. "Rejected for any password whose first eight bytes differ in the low seven bits" is not provable: it
    says 25 salted DES iterations of the zero block never collide for two keys. Proved: CheckPasswd accepts exactly
